@@ -7,7 +7,8 @@ Import ListNotations.
 Record dynop := {
   op_in : tag;                                  (* Vec<I> the operator downcasts to *)
   op_out : tag;
-  op_fn : list val -> outcome (list val);       (* body of apply after the downcast *)
+  op_fn : list val -> option (list val);        (* body of apply after the downcast;
+                                                   None = it panics (apply cannot return an error) *)
   op_kp : bool;                                 (* key_preserving *)
   op_vo : bool;                                 (* value_only *)
   op_rs : bool;                                 (* reorder_safe_with_value_only *)
@@ -19,7 +20,7 @@ Record dynop := {
 (* DynOp::apply: `*input.downcast::<Vec<I>>().expect(..)` then the body *)
 Definition apply_op (o : dynop) (p : part) : outcome part :=
   if Nat.eqb (fst p) (op_in o)
-  then omap_out (fun l => (op_out o, l)) (op_fn o (snd p))
+  then match op_fn o (snd p) with Some l => Ok (op_out o, l) | None => Panic end
   else Panic.
 
 (* `ops.iter().fold(p, |acc, op| op.apply(acc))` *)
@@ -35,16 +36,16 @@ Definition mk_op i o fn kp vo rs cost uid : dynop :=
 
 (* MapOp / FilterOp / FlatMapOp: default hints *)
 Definition op_map (i o : tag) (f : val -> val) (uid : nat) : dynop :=
-  mk_op i o (fun l => Ok (map f l)) false false false 10 uid.
+  mk_op i o (fun l => Some (map f l)) false false false 10 uid.
 Definition op_filter (i : tag) (p : val -> bool) (uid : nat) : dynop :=
-  mk_op i i (fun l => Ok (filter p l)) false false false 10 uid.
+  mk_op i i (fun l => Some (filter p l)) false false false 10 uid.
 Definition op_flat_map (i o : tag) (g : val -> list val) (uid : nat) : dynop :=
-  mk_op i o (fun l => Ok (flat_map g l)) false false false 10 uid.
+  mk_op i o (fun l => Some (flat_map g l)) false false false 10 uid.
 (* MapValuesOp: kp, vo, rs, cost 3 ; FilterValuesOp: kp, vo, rs, cost 1 *)
 Definition op_map_values (i o : tag) (f : val -> val) (uid : nat) : dynop :=
-  mk_op i o (fun l => Ok (map (on_snd f) l)) true true true 3 uid.
+  mk_op i o (fun l => Some (map (on_snd f) l)) true true true 3 uid.
 Definition op_filter_values (i : tag) (p : val -> bool) (uid : nat) : dynop :=
-  mk_op i i (fun l => Ok (filter (fun kv => p (vsnd kv)) l)) true true true 1 uid.
+  mk_op i i (fun l => Some (filter (fun kv => p (vsnd kv)) l)) true true true 1 uid.
 
 (* slice::chunks(n), n >= 1 *)
 Fixpoint chunks_fuel (fuel n : nat) (l : list val) : list (list val) :=
@@ -60,21 +61,24 @@ Definition chunks (n : nat) (l : list val) : list (list val) := chunks_fuel (len
 
 (* BatchMapOp: batch_size.max(1); out.append(f(chunk)) for chunk in v.chunks(batch) ; default hints *)
 Definition op_batch_map (i o : tag) (n : nat) (g : list val -> list val) (uid : nat) : dynop :=
-  mk_op i o (fun l => Ok (concat (map g (chunks (Nat.max n 1) l)))) false false false 10 uid.
+  mk_op i o (fun l => Some (concat (map g (chunks (Nat.max n 1) l)))) false false false 10 uid.
 
 (* BatchMapValuesOp: per chunk, f(values) must have the chunk's length (assert_eq! => Panic),
    outputs are re-paired with the keys in order; kp, vo, rs, cost 2 *)
 Definition rekey (chunk : list val) (outs : list val) : list val :=
   map (fun ko => VPair (vfst (fst ko)) (snd ko)) (combine chunk outs).
 Fixpoint batch_values_chunks (g : list val -> list val) (cs : list (list val))
-  : outcome (list val) :=
+  : option (list val) :=
   match cs with
-  | [] => Ok []
+  | [] => Some []
   | c :: r =>
       let produced := g (map vsnd c) in
       if Nat.eqb (length produced) (length c)
-      then obind (batch_values_chunks g r) (fun rest => Ok (rekey c produced ++ rest))
-      else Panic
+      then match batch_values_chunks g r with
+           | Some rest => Some (rekey c produced ++ rest)
+           | None => None
+           end
+      else None
   end.
 Definition op_batch_map_values (i o : tag) (n : nat) (g : list val -> list val) (uid : nat)
   : dynop :=
